@@ -4,6 +4,7 @@
 EXTENDS WorkQueueProd, Json
 VARIABLE lastAct
 NoFaults == {{}}
+AsCoded == {"propagate"}
 SimInit == PInit /\ lastAct = <<"Init", 0>>
 \* (what the abandoned workers do after the stage has raised is of no interest: every action needs outcome = "running"; the guard sits
 \* inside A so that SimNext stays a plain disjunction - TLC's simulator then evaluates the invariant on the chosen successor only)
@@ -18,7 +19,7 @@ SimNext == \/ A(Healthy /\ PPut /\ Keep, "PPut", 0) \/ A(Healthy /\ PPutFull /\ 
                                  \/ A(WCbStart(w) /\ Keep, "WCbStart", w) \/ A(WCbEnd(w) /\ Keep, "WCbEnd", w)
 SimSpec == SimInit /\ [][SimNext]_<<pvars, lastAct>>
 Emit == PrintT(<<"TR", ToJson([lvl |-> TLCGet("level"), act |-> lastAct[1], who |-> lastAct[2],
-          faults |-> faults, pfail |-> pfail, pfired |-> pfired, next |-> next, buf |-> buf, pipe |-> pipe, sem |-> sem, rlock |-> rlock,
+          faults |-> faults, pfail |-> pfail, react |-> react, pfired |-> pfired, next |-> next, buf |-> buf, pipe |-> pipe, sem |-> sem, rlock |-> rlock,
           doneEv |-> doneEv, ppc |-> ppc, pjoin |-> pjoin, wpc |-> wpc, witem |-> witem, wflag |-> wflag,
           started |-> started, processed |-> processed, outcome |-> outcome])>>)
 ====
